@@ -4,13 +4,33 @@ PROPERTIES = {
     'C15': {
         'units': ['rle'],
         'level': 'proof',
+        'technique': 'Verus function contracts + loop invariants on mechanically extracted codec functions (unbounded); Kani loop-free harness for zig-zag',
+        'level_text': 'Deductive proof, for all inputs and lengths, that each contracted codec function meets a sequence-level specification from which the round trip and random-access agreement follow as lemmas over the contracts; bounded stand-ins are listed separately and not counted.',
+        'level_note': 'Trusted: Verus/Z3, the extraction rules listed in the evidence (diff included), usize = 64 bit. Not covered: dictionary, codec selector, compressed columns, succinct structures.',
         'explanation': 'Codec kernels of crates/grafeo-core/src/storage extracted from the working tree and verified against sequence-level specifications '
                        '(decode(encode(v)) == v, random access == full decoding) for every length and every value.',
     },
     'C16': {
         'units': ['value_laws'],
         'level': 'proof',
+        'technique': 'Kani/CBMC loop-free harnesses over all bit patterns of the real eq/cmp/hash impls (complete, not bounded)',
+        'level_text': 'Bit-precise proof over every f64/i64/bool payload that the wrappers satisfy equivalence / total-order / eq-hash agreement laws on the heap-free variants; counterexamples are replayed natively on the real crate.',
+        'level_note': 'Trusted: Kani/CBMC; a recording Hasher stands for every Hasher. Not covered: String/Bytes/List/Map/Vector variants, serialisation round trips.',
         'explanation': 'Loop-free Kani harnesses over every bit pattern of the scalar payloads: equivalence, total order, eq/cmp/hash agreement '
                        'for OrderedFloat64, OrderableValue and HashableValue on the heap-free variants, and Timestamp.',
     },
+}
+
+NOT_APPLICABLE = {
+    'C01': 'pending', 'C02': 'pending', 'C03': 'pending', 'C04': 'pending',
+    'C05': 'Persistence is GrafeoDB::{with_config,close} + WalManager + WalRecovery + bincode over File/BufReader: Verus has no file model, Kani cannot execute syscalls, and the store side is RwLock<FxHashMap> code outside both verifiers; no function contract in reach expresses "reopens to the same state".',
+    'C06': 'A crash point is a file-system state (bytes present after the last fsync, temp files); no pre/postcondition of read_record(&mut BufReader<File>) or log() can range over those states with the installed verifiers.',
+    'C07': 'Export/import is bincode (external serializer) + whole-store enumeration over RwLock<FxHashMap>; neither verifier can take it (hash maps intractable in Kani, locks/bincode unsupported in Verus).',
+    'C08': 'Needs a reference semantics for whole queries through translator, binder, planner and a tree of Box<dyn Operator>; contracts on single functions cannot express "rows equal the bindings of the pattern".',
+    'C09': 'Semantic equivalence of LogicalOperator trees under rewriting needs a denotational semantics of the whole algebra; no function-level contract within reach decides it.',
+    'C10': 'pending', 'C11': 'pending', 'C12': 'pending', 'C13': 'pending', 'C14': 'pending',
+    'C17': 'The one integer kernel (generate_morsels) is step_by().enumerate() code: unspecifiable in Verus, and Kani did not finish in 5 min even at 3 rows; the rest is schedulers, heaps, f64 accumulators and spill files.',
+    'C18': 'Distances are f64 reductions with SIMD intrinsics, HNSW is RwLock + HashMap + RNG, and the feature is in no default build; outside both verifiers.',
+    'C19': 'Optimality specifications over HashMap-based graph views with f64 weights; no contract within reach expresses them.',
+    'C20': 'pending',
 }
